@@ -195,7 +195,15 @@ func (bg *BondgoCheck) Create_Bondmachine(rsize int, filter string) (*bondmachin
 	for _, _ = range creqs {
 		bmach.Add_shared_objects([]string{"channel:"})
 	}
-	for chanid, creq := range creqs {
+	// The channels are connected in the order of their ids: ranging over the map made the order of the
+	// Shared_links of every processor depend on the map iteration order
+	chanids := make([]int, 0, len(creqs))
+	for chanid := range creqs {
+		chanids = append(chanids, chanid)
+	}
+	sort.Ints(chanids)
+	for _, chanid := range chanids {
+		creq := creqs[chanid]
 		for _, proc_id := range creq.Connected {
 			endpoints := make([]string, 2)
 			endpoints[0] = strconv.Itoa(proc_id)
